@@ -173,6 +173,9 @@ def build(recipe):
     elif variant == "unmerged":
         V = V[F.reshape(-1)]
         F = np.arange(len(V)).reshape(-1, 3)
+    elif variant == "no_faces":
+        # vertices without a single face (what is left after every face was masked away)
+        F = np.zeros((0, 3), dtype=np.int64)
     return np.ascontiguousarray(V), np.ascontiguousarray(F)
 
 
